@@ -1262,6 +1262,42 @@ func vfC10SnapHolds(s *vfC10nSnapshot) string {
 	return sb.String()
 }
 
+// vfC10OwnState renders two snapshots of one node for the own-state comparison. The value of a
+// key that nobody holds is only kept while the key's record lingers (it is released on a timer of
+// the node's own clock, not by a request): such a value disappearing between the two snapshots is
+// not a state change, so the key is left out of both renderings. Everything else is compared as is.
+func vfC10OwnState(s0, s1 *vfC10nSnapshot) (string, string) {
+	type kk struct {
+		db  uint8
+		key string
+	}
+	after := map[kk]*vfC10nKey{}
+	for i := range s1.Keys {
+		after[kk{s1.Keys[i].Db, s1.Keys[i].Key}] = &s1.Keys[i]
+	}
+	skip := map[kk]bool{}
+	for i := range s0.Keys {
+		k := &s0.Keys[i]
+		if len(k.Holds) != 0 || !k.HasData {
+			continue
+		}
+		if b := after[kk{k.Db, k.Key}]; b == nil || (len(b.Holds) == 0 && !b.HasData) {
+			skip[kk{k.Db, k.Key}] = true
+		}
+	}
+	render := func(s *vfC10nSnapshot) string {
+		c := *s
+		c.Keys = nil
+		for _, k := range s.Keys {
+			if !skip[kk{k.Db, k.Key}] {
+				c.Keys = append(c.Keys, k)
+			}
+		}
+		return vfC10SnapHolds(&c)
+	}
+	return render(s0), render(s1)
+}
+
 func vfC10ClusterCase(env *vfEnv, part *vfPart, i int) {
 	rng := vfCaseRand(env.Seed, "C10", i)
 	c := &vfC10Ctx{part: part, env: env, caseN: i, fam: "cluster"}
@@ -1355,7 +1391,7 @@ func vfC10ClusterCase(env *vfEnv, part *vfPart, i int) {
 			c.inconclusive("follower snapshot: %v", err1)
 			return
 		}
-		a, b := vfC10SnapHolds(s0), vfC10SnapHolds(s1)
+		a, b := vfC10OwnState(s0, s1)
 		c.note("held phase: leader log position %d/%d, follower %d/%d", li.AofIndex, li.AofOffset, fi.AofIndex, fi.AofOffset)
 		if a != b {
 			c.violate("own-state-changed", "follower-state-changed-without-stream", "with the replication stream held at the proxy, client requests sent to the follower changed the follower's own holds / values\nbefore:\n%s\nafter:\n%s", a, b)
@@ -1508,7 +1544,7 @@ func vfC10ClusterCase(env *vfEnv, part *vfPart, i int) {
 				return
 			}
 			if fi != nil && fi.State == STATE_SYNC {
-				a, b := vfC10SnapHolds(sBefore), vfC10SnapHolds(sAfter)
+				a, b := vfC10OwnState(sBefore, sAfter)
 				if a != b {
 					c.violate("own-state-changed", "follower-state-changed-without-stream", "while syncing (handshake held at the proxy), client requests sent to the node changed its own holds / values\nbefore:\n%s\nafter:\n%s", a, b)
 					return
